@@ -96,6 +96,31 @@ def crosstalk_sites(w: World, merge_groups: list[set] | None = None, labels: dic
             if n is not None:
                 net_emit.setdefault(n, []).append((e.num, em))
     sites = []
+    # output anchors show their whole network to the user: two emitters of one signal there
+    # are a sum nobody asked for (unless it is an intended same-type wire merge)
+    for e in w.ents.values():
+        if e.kind == "const" and not e.keys and "output anchor" in (e.desc or ""):
+            per_key: dict = {}
+            wild = []
+            for c in (1, 2):
+                n = e.net.get(c)
+                if n is None:
+                    continue
+                for num, em in net_emit.get(n, []):
+                    if em is None:
+                        wild.append(num)
+                    else:
+                        for k in em:
+                            per_key.setdefault(k, set()).add(num)
+            for k, who in per_key.items():
+                tot = sorted(who | set(wild))
+                if len(tot) >= 2:
+                    names = {labels.get(n) for n in tot}
+                    if None not in names and any(names <= g for g in merge_groups):
+                        continue
+                    sites.append((e.num, k[1], tot))
+            if len(set(wild)) >= 2:
+                sites.append((e.num, "*", sorted(set(wild))))
     for e in w.ents.values():
         for key, (sr, sg) in _reads(e):
             ems = []
@@ -122,4 +147,81 @@ def crosstalk_sites(w: World, merge_groups: list[set] | None = None, labels: dic
             if None not in names and any(names <= g for g in merge_groups):
                 continue
             sites.append((e.num, key[1], who))
+    return sites
+
+
+def _wild_reads(e):
+    """Yield (red, green) selections of every wildcard (each/anything/everything) read."""
+    if e.kind == "arith":
+        ac = e.cb.get("arithmetic_conditions") or {}
+        for side in ("first", "second"):
+            if sigkey(ac.get(f"{side}_signal")) in WILD:
+                yield _sel(ac.get(f"{side}_signal_networks"))
+    elif e.kind == "decider":
+        dc = e.cb.get("decider_conditions") or {}
+        for c in dc.get("conditions") or []:
+            if sigkey(c.get("first_signal")) in WILD:
+                yield _sel(c.get("first_signal_networks"))
+        for o in dc.get("outputs") or []:
+            if sigkey(o.get("signal")) in WILD and o.get("copy_count_from_input", True):
+                yield _sel(o.get("networks"))
+    else:
+        cc = e.cb.get("circuit_condition")
+        if cc and sigkey(cc.get("first_signal")) in WILD:
+            yield (True, True)
+
+
+def bundle_crosstalk_sites(w: World, allowed: list[set], per_entity: dict | None = None,
+                           anchors: bool = False):
+    """Wildcard reads whose network can carry a set of signal types that is not contained in any
+    bundle the program builds (`allowed` = static member-type sets of all bundle values, as
+    signal keys).  Such a read sees a foreign signal: the bundle form of KF-crosstalk."""
+    # emittable types per entity, to a fixed point (wildcard outputs forward their inputs)
+    emit: dict[int, set] = {}
+    for e in w.ents.values():
+        em = _emits(e) if not e.emit else set(e.emit)
+        emit[e.num] = set() if em is None else set(em)
+    wild_out = {e.num for e in w.ents.values() if e.kind in ("arith", "decider") and _emits(e) is None}
+
+    def net_types(e, sel):
+        s: set = set()
+        sr, sg = sel
+        for c, on in ((1, sr), (2, sg)):
+            n = e.net.get(c) if on else None
+            if n is None:
+                continue
+            for (num, conn) in w.net_members.get(n, []):
+                src = w.ents[num]
+                if (src.kind == "const" and conn in (1, 2)) or (src.kind in ("arith", "decider") and conn in (3, 4)) or (src.emit and conn in (1, 2)):
+                    s |= emit[num]
+        return s
+
+    for _ in range(len(w.ents) + 2):
+        changed = False
+        for num in wild_out:
+            e = w.ents[num]
+            s: set = set()
+            for sel in _wild_reads(e):
+                s |= net_types(e, sel)
+            # a named second operand / output constant adds nothing to the member set
+            if not s <= emit[num]:
+                emit[num] |= s
+                changed = True
+        if not changed:
+            break
+    sites = []
+    for e in w.ents.values():
+        reads = list(_wild_reads(e))
+        if (anchors and e.kind == "const" and not e.keys and "output anchor" in (e.desc or "")
+                and per_entity is not None and e.num in per_entity):
+            reads.append((True, True))
+        for sel in reads:
+            s = net_types(e, sel)
+            if not s:
+                continue
+            if per_entity is not None and e.num in per_entity:
+                if not s <= per_entity[e.num]:
+                    sites.append((e.num, sorted(k[1] for k in s)))
+            elif not any(s <= a for a in allowed):
+                sites.append((e.num, sorted(k[1] for k in s)))
     return sites
